@@ -3,6 +3,7 @@
 import json, subprocess
 claimed = {
  "C09": ("proof", "Full functional contract of (*Subtitles).Add (count, order, identity, exact shift, clamp, exactly the dead cues removed, frame) discharged for all list lengths and all time values; loop invariant with ghost counter; frame obligations.", "govc weakest-precondition VCs over the typed AST + z3/cvc5 portfolio; contract on Subtitles.Add", "4 C09"),
+ "C10": ("proof", "Fragment (after repair of a genuine defect): no result cue strictly contains a multiple of f; result ordered by start; the timeline (texts on screen at every instant) is unchanged; every result cue is a piece of an original (same text/style/region/lines, bounds within the original, interior boundaries are multiples of f, non-empty unless the original was empty); every original pointer is kept; frame. Two nested loop invariants with ghost maps and a ghost quotient; nonlinear lemmas proved separately.", "contract on Subtitles.Fragment, ghost maps, opaque predicates, NIA lemmas, SMT discharge", "4 C10"),
  "C11": ("proof", "Unfragment: result ordered by start; no two same-text cues touch or overlap; every result cue is an original cue with unchanged start and an end that only grew; the set of texts on screen at every instant is preserved (forall-exists clause over an opaque on-screen predicate); frame. Inverse law w.r.t. Fragment is not decided.", "contract on Subtitles.Unfragment with nested loop invariants; abstract cue text; SMT discharge", "4 C11"),
  "C12": ("proof", "Order: permutation + sorted + stable against an assumed sort.SliceStable contract whose comparator is proved to be a strict weak order; Merge: ordered stable union of both lists, receiver-wins map union (map-range invariant over a ghost visited set), argument unchanged (frame obligations).", "contracts on Subtitles.Order and Subtitles.Merge, ghost permutation witnesses, SMT discharge", "4 C12"),
  "C13": ("proof", "Optimize/removeUnusedRegionsAndStyles: kept regions = used regions, kept styles are a subset containing every directly used style, closed under inheritance (closure) and supported (nothing else is kept), values and cues untouched (frame); RemoveStyling: maps empty, every cue/run style pointer nil, only styling fields assigned (frame). Five nested/map-range loop invariants incl. a ghost frontier for the parent walk.", "contracts on Subtitles.Optimize, removeUnusedRegionsAndStyles, RemoveStyling; map-range loops with ghost visited sets; SMT discharge", "4 C13"),
